@@ -301,3 +301,85 @@ def c_diff_T(ctx, it, cfg):
     t = real(ctx, 't')
     m._getFluxes(t, [x])
     ctx.prove('schedule-evaluated-once-at-the-time-given', len(calls) == 1 and eq(calls[0][1], t) and calls[0][0] is m.fields['z'])
+
+
+@REG.contract('_updateParticleSizeDistribution/tables-and-growth-follow-every-grid-change', [KE + ':PrecipitateModel._updateParticleSizeDistribution'],
+              configs=[dict(name='binary', E=1), dict(name='ternary', E=2)], max_paths=400)
+def c_update_psd(ctx, it, cfg):
+    """after a step, whenever the size classes of ANY phase changed, the interfacial-composition tables are rebuilt for the temperature of the step just recorded
+    (pData.temperature[pData.n]) and the growth rates are recomputed after that change -- for every phase, not only the last one"""
+    from .kwn import mk_kwn
+    P, E = 2, cfg['E']
+    m, pd, n = mk_kwn(ctx, it, P, E)
+    log = []
+    Tn = pd.fields['temperature'].get(n)
+
+    class PBMStub(object):
+        def __init__(self, p):
+            self.p = p
+            self.bins = integer(ctx, 'bins%d' % p, lambda v: v >= 2)
+            self.PSD = array(ctx, 'psd%d' % p, (self.bins,), fact=lambda v, i: v >= 0)
+            self.PSDsize = array(ctx, 'size%d' % p, (self.bins,), fact=lambda v, i: v > 0)
+            self.PSDbounds = array(ctx, 'bounds%d' % p, (self.bins + 1,), fact=lambda v, i: v > 0)
+            self.change = boolean(ctx, 'grid_of_phase%d_changes' % p)
+            self.remesh = boolean(ctx, 'phase%d_remeshed_rather_than_extended' % p)
+
+        def reset(self):
+            log.append(('reset', self.p))
+
+        def UpdatePBMEuler(self, t, x):
+            log.append(('update', self.p))
+
+        def adjustSizeClassesEuler(self, flag):
+            log.append(('adjust', self.p, self.change))
+            if not self.change:
+                return False, None
+            if self.remesh:
+                return True, None
+            return True, integer(ctx, 'added_from%d' % self.p, lambda v: v >= 1, lambda v: v <= self.bins)
+
+        def getDissolutionIndex(self, maxDiss, rIdx):
+            return integer(ctx, 'diss%d' % self.p, lambda v: v >= 0)
+    pbms = [PBMStub(p) for p in range(P)]
+    m.fields['PBM'] = pbms
+    m.fields['PSDXalpha'] = [array(ctx, 'xa%d' % p, (integer(ctx, 'oldlen%d' % p, lambda v: v >= 1, lambda v, p=p: v <= pbms[p].bins + 1), E)) for p in range(P)]
+    m.fields['PSDXbeta'] = [array(ctx, 'xb%d' % p, (m.fields['PSDXalpha'][p].shape[0], E)) for p in range(P)]
+    m.fields['growth'] = [array(ctx, 'g%d' % p, (pbms[p].bins + 1,)) for p in range(P)]
+    m.fields['eqAspectRatio'] = [None] * P
+    ctx.assume(and_(*[pd.fields['drivingForce'].get(n, p) >= 0 for p in range(P)]))       # the phase-reset branch has its own contract (C03)
+
+    class Therm(object):
+        def getInterfacialComposition(self, T, g, precPhase=None):
+            log.append(('tables-extended', precPhase, T))
+            return array(ctx, 'nxa_%s' % precPhase, g.shape), array(ctx, 'nxb_%s' % precPhase, g.shape)
+    m.fields['therm'] = Therm()
+    m.fields['particleGibbs'] = lambda radius=None, phase=None: array(ctx, 'gibbs_%s' % phase, radius.shape)
+    m.fields['_createLookupBinary'] = lambda T: log.append(('tables-rebuilt', T))
+
+    made = []
+
+    def growthRate(Y):
+        log.append(('growth', Y.fields['temperature'].get(0)))
+        g = [array(ctx, 'newgrowth%d_%d' % (len(made), p), (pbms[p].bins + 1,)) for p in range(P)]
+        made.append(g)
+        return g, Y
+    m.fields['_growthRate'] = growthRate
+    x = [array(ctx, 'x%d' % p, (pbms[p].bins,), fact=lambda v, i: v >= 0) for p in range(P)]
+    m._updateParticleSizeDistribution(real(ctx, 't'), x)
+    kinds = [e[0] for e in log]
+    for p in range(P):
+        ch = [e for e in log if e[0] == 'adjust' and e[1] == p]
+        ctx.prove('phase%d/adjusted-once' % p, len(ch) == 1)
+        if pbms[p].change:
+            k = log.index(ch[0])
+            after = [e for e in log[k + 1:] if e[0] == 'growth']
+            ctx.prove('phase%d/growth-recomputed-after-its-grid-changed' % p, len(after) >= 1)
+            ctx.prove('phase%d/growth-recomputed-for-the-state-just-recorded' % p, len(after) >= 1 and all(eq(e[1], Tn) is True or (not isinstance(eq(e[1], Tn), bool) and ctx.prove('phase%d/growth-state-temperature' % p, eq(e[1], Tn))) for e in after[:1]))
+    for e in log:
+        if e[0] in ('tables-rebuilt', 'tables-extended'):
+            ctx.prove('tables-computed-at-the-temperature-of-the-recorded-step', eq(e[-1], Tn))
+    if not any(o.change for o in pbms):
+        ctx.prove('no-grid-change-no-recomputation', 'growth' not in kinds and 'tables-rebuilt' not in kinds)
+    last_growth = [e for e in log if e[0] == 'growth']
+    if last_growth:
+        ctx.prove('growth-field-is-the-latest-recomputation', m.fields['growth'] is made[-1])
